@@ -410,11 +410,14 @@ func runC16(c *Ctx) {
 	dec := P.Func(pkg, "(JsonWebEncryption).Decrypt")
 	if R.Anchor(dec != nil, "C16.gate", pkg+".(JsonWebEncryption).Decrypt") {
 		var dcall ssa.Value
-		core.EachInstr(dec, func(in ssa.Instruction) {
-			if call, ok := in.(*ssa.Call); ok && call.Call.IsInvoke() && call.Call.Method.Name() == "decrypt" {
-				dcall = call
-			}
-		})
+		// in Decrypt, or in the helper its recipient loop was extracted into
+		for _, host := range joseDecryptHosts(dec) {
+			core.EachInstr(host, func(in ssa.Instruction) {
+				if call, ok := in.(*ssa.Call); ok && call.Call.IsInvoke() && call.Call.Method.Name() == "decrypt" {
+					dcall = call
+				}
+			})
+		}
 		// the failure return: ErrCryptoFailure
 		var failIf *ssa.If
 		for _, r := range core.Returns(dec) {
@@ -713,11 +716,15 @@ func checkJoseTriesEveryRecipient(c *Ctx) {
 		return
 	}
 	var dec *ssa.Call
-	core.EachInstr(fn, func(in ssa.Instruction) {
-		if call, ok := in.(*ssa.Call); ok && call.Call.IsInvoke() && call.Call.Method.Name() == "decrypt" {
-			dec = call
-		}
-	})
+	for _, host := range joseDecryptHosts(fn) {
+		host := host
+		core.EachInstr(host, func(in ssa.Instruction) {
+			if call, ok := in.(*ssa.Call); ok && call.Call.IsInvoke() && call.Call.Method.Name() == "decrypt" {
+				dec = call
+				fn = host // the recipient loop is where the content decryption is
+			}
+		})
+	}
 	if !R.Anchor(dec != nil, "C16.gate", "content decrypt call in the recipient loop of Decrypt") {
 		return
 	}
@@ -807,4 +814,17 @@ func checkJoseInputsNotModified(c *Ctx) {
 			"the primitive computes on copies and leaves the bytes it was given untouched",
 			"the primitive writes through its input ("+bad+"): the parsed object's own bytes are altered by the first attempt, so decrypting it again (or with the right key after a wrong one) fails", nil)
 	}
+}
+
+// joseDecryptHosts: Decrypt and its direct callees in the package (the recipient loop may have been extracted).
+func joseDecryptHosts(dec *ssa.Function) []*ssa.Function {
+	out := []*ssa.Function{dec}
+	core.EachInstr(dec, func(in ssa.Instruction) {
+		if call, ok := in.(*ssa.Call); ok {
+			if f := call.Call.StaticCallee(); f != nil && core.InModule(f) && core.ShortPkg(f) == core.ShortPkg(dec) && f.Parent() == nil && len(f.Blocks) > 0 {
+				out = append(out, f)
+			}
+		}
+	})
+	return out
 }
